@@ -210,9 +210,7 @@ theorem stepByGo_one {α : Type} (l : List α) : stepByGo 1 0 l = l := by
 key occurs at most once.  Laws (`mem_insert`, `insert_sorted`, `get_insert`) are proved below; that the crates behave like
 this is part of the trusted base. -/
 
-def expect {α : Type} : Option α → Res α
-  | some a => ok a
-  | none => panic
+-- (`expect` is defined above: `some a ↦ ok a`, `none ↦ panic`)
 /-- `opt.map(f)` for a translated closure `f` -/
 def optMapM {α β : Type} (f : α → Res β) : Option α → Res (Option β)
   | some a => do let b ← f a; pure (some b)
